@@ -110,6 +110,21 @@ func honest(w *vt.Writer, t *dp.Topo, maxLen, maxJ int, st *stats) {
 				}
 				n.Run(w, src, dst, p, dp.JourneyOpts{ID: st.journeys, Mode: "honest", PT: "scion",
 					L4: "udp", HBH: k%3 == 0, E2E: k%4 == 1, Rev: rev, Rng: rng})
+				// the same path wrapped in EPIC-HP (every 3rd path in quick, all in thorough)
+				if p.Metadata.EpicAuths.SupportsEpic() && (vt.Thorough() || k%3 == 0) {
+					st.journeys++
+					n.Run(w, src, dst, p, dp.JourneyOpts{ID: st.journeys, Mode: "honest", PT: "epic",
+						L4: "udp", HBH: k%2 == 0, Rev: "pather", Rng: rng})
+				}
+			}
+		}
+	}
+	// one-hop paths over every link, in both directions, to a host and to the control service
+	for as := range t.ASes {
+		for _, e := range t.Ends(as) {
+			for _, svc := range []bool{false, true} {
+				st.journeys++
+				n.RunOHP(w, st.journeys, e, svc, rng)
 			}
 		}
 	}
